@@ -49,7 +49,7 @@ Req(cmd, b, sy, e) == [cmd |-> cmd, b |-> b, sync |-> sy, e |-> e, v |-> 0]
 NoReq == Req("none", NoBar, FALSE, 0)
 
 BarInit == [exists |-> FALSE, total |-> 0, cur |-> 0, trig |-> FALSE, aborted |-> FALSE, rm |-> FALSE, nopop |-> FALSE,
-            sync |-> FALSE, after |-> NoBar, shutdown |-> 0, ctx |-> FALSE, pc |-> "none", prio |-> 0,
+            sd |-> <<>>, rdk |-> 0, after |-> NoBar, shutdown |-> 0, ctx |-> FALSE, pc |-> "none", prio |-> 0,
             rg |-> "none", rd |-> "none", host |-> "none",
             frame |-> [has |-> FALSE, sd |-> 0, rm |-> FALSE, nopop |-> FALSE, err |-> FALSE],
             index |-> 0, fills |-> 0, pushed |-> FALSE]
@@ -60,15 +60,16 @@ CtInit == [pc |-> "idle", b |-> NoBar, cmd |-> "none", sync |-> FALSE, then |-> 
            v |-> 0, lazy |-> FALSE]                         \* arguments of a pending priority change      \* close(iter) / close(iterPop) seen by the next receive
 
 Init0 ==
-  [cl    |-> [c \in Clients |-> [pc |-> 1, st |-> IF Len(Prog[c]) = 0 THEN "done" ELSE "gate", res |-> "none"]],
+  [cl    |-> [c \in Clients |-> [pc |-> 1, st |-> IF Len(Prog[c]) = 0 THEN "done" ELSE "gate", k |-> 0]],
    ct    |-> CtInit,
    hm    |-> [pc |-> "idle", req |-> NoReq, i |-> 0, order |-> <<>>, e |-> 0],
    hmbuf |-> <<>>,             \* requests in the channel buffer
    hmblk |-> <<>>,             \* blocked senders, FIFO: [req, from]   from = 0 (container) or k (k-th detached push)
    hmclosed |-> FALSE,
-   heap  |-> <<>>, hlen |-> 0, hsync |-> FALSE, matrix |-> <<>>,
+   heap  |-> <<>>, hlen |-> 0, hsync |-> FALSE, matrix |-> <<>>,     \* columns: [side, col, members : seq of [b, k]]
    bar   |-> [b \in Bars |-> BarInit],
    nbars |-> 0,                \* bars created so far
+   added |-> {},               \* Add calls that have returned (bar index = position of the Add in program order)
    queue |-> [b \in Bars |-> NoBar],   \* queueBars: predecessor -> successor
    popPrio |-> -100,
    dist  |-> <<>>,             \* width distributors: [members, i, pc]
@@ -117,6 +118,27 @@ HeapPopBar(h) == h[1]                      \* the element Pop returns (after the
 HeapPopRest(st, h) == LET n == Len(h) IN
                       IF n = 1 THEN <<>> ELSE SubSeq(Down(st, Swap(h, 1, n), 1, n - 1), 1, n - 1)
 
+(* goroutine tables: a finished goroutine's slot is reused, so the tables stay as small as the number of
+   goroutines alive at once (indices are only referred to while the goroutine lives) *)
+AddSlot(q, rec) == IF \E i \in DOMAIN q : q[i].pc = "gone"
+                   THEN LET i == CHOOSE i \in DOMAIN q : q[i].pc = "gone" /\ \A j \in DOMAIN q : q[j].pc = "gone" => i <= j
+                        IN [q EXCEPT ![i] = rec]
+                   ELSE Append(q, rec)
+
+(* the sync matrices: the k-th synchronised decorator of a bar's side goes into that side's k-th column *)
+ColOf(sd, k) == Cardinality({j \in 1..k : sd[j].side = sd[k].side})        \* ordinal among the synced decorators of its side
+RECURSIVE AddToMatrix(_, _, _, _)
+AddToMatrix(m, b, sd, k) ==
+  IF k > Len(sd) THEN m
+  ELSE LET side == sd[k].side  col == ColOf(sd, k)
+           pos == {i \in DOMAIN m : m[i].side = side /\ m[i].col = col}
+           m2 == IF pos = {} THEN Append(m, [side |-> side, col |-> col, members |-> <<[b |-> b, k |-> k]>>])
+                 ELSE LET i == CHOOSE i \in pos : TRUE IN [m EXCEPT ![i].members = Append(@, [b |-> b, k |-> k])]
+       IN AddToMatrix(m2, b, sd, k + 1)
+(* one distributor goroutine per column *)
+RECURSIVE SpawnDists(_, _, _)
+SpawnDists(d, m, i) == IF i > Len(m) THEN d ELSE SpawnDists(AddSlot(d, [members |-> m[i].members, i |-> 1, pc |-> "gate"]), m, i + 1)
+
 (* the heap manager channel *)
 HmIdle(st) == st.hm.pc = "idle"
 CanSendNow(st) == (HmIdle(st) /\ ~st.hmclosed) \/ Len(st.hmbuf) < Q
@@ -126,41 +148,38 @@ Deliver(st, r) ==
   ELSE IF HmIdle(st) /\ st.hmbuf = <<>> THEN [st EXCEPT !.hm.pc = "req_gate", !.hm.req = r]
   ELSE [st EXCEPT !.hmbuf = Append(@, r)]
 
-(* goroutine tables: a finished goroutine's slot is reused, so the tables stay as small as the number of
-   goroutines alive at once (indices are only referred to while the goroutine lives) *)
-AddSlot(q, rec) == IF \E i \in DOMAIN q : q[i].pc = "gone"
-                   THEN LET i == CHOOSE i \in DOMAIN q : q[i].pc = "gone" /\ \A j \in DOMAIN q : q[j].pc = "gone" => i <= j
-                        IN [q EXCEPT ![i] = rec]
-                   ELSE Append(q, rec)
-
 (* ------------------------------------------------------- what is parked *)
-ErLabels(st) == {<<"er:start", st.er[k].b, k>> : k \in {j \in DOMAIN st.er : st.er[j].pc = "gate"}}
-               \cup {<<"er:pump", st.er[k].b, k>> : k \in {j \in DOMAIN st.er : st.er[j].pc = "pump_gate"}}
-DpLabels(st) == {<<"dp:send", st.dp[k].req.b, k>> : k \in {j \in DOMAIN st.dp : st.dp[j].pc = "gate"}}
-DistLabels(st) == {<<"dist:start", st.dist[k].members[1], k>> : k \in {j \in DOMAIN st.dist : st.dist[j].pc = "gate"}}
-                 \cup {<<"dist:mid", st.dist[k].members[1], k>> : k \in {j \in DOMAIN st.dist : st.dist[j].pc = "mid_gate"}}
-BarLabels(st) == {<<"rg:start", b, 0>> : b \in {x \in Bars : st.bar[x].rg = "gate"}}
-                \cup {<<"fmt:send", b, 0>> : b \in {x \in Bars : st.bar[x].rd = "fmt_gate"}}
-                \cup {<<"bar:exit", b, 0>> : b \in {x \in Bars : st.bar[x].pc = "exit_gate"}}
-                \cup {<<"bar:cancel", b, 0>> : b \in {x \in Bars : st.bar[x].pc = "cancel_gate"}}
+(* a parked gate is <<name, bar, k, decorator>>: k distinguishes goroutines of one kind, the decorator name
+   ("p0", "a1": side and position among the decorators of that side) identifies a width channel *)
+DecName(d) == d.side \o ToString(d.idx)
+ErLabels(st) == {<<"er:start", st.er[k].b, k, "">> : k \in {j \in DOMAIN st.er : st.er[j].pc = "gate"}}
+               \cup {<<"er:pump", st.er[k].b, k, "">> : k \in {j \in DOMAIN st.er : st.er[j].pc = "pump_gate"}}
+DpLabels(st) == {<<"dp:send", st.dp[k].req.b, k, "">> : k \in {j \in DOMAIN st.dp : st.dp[j].pc = "gate"}}
+FirstDec(st, D) == DecName(st.bar[D.members[1].b].sd[D.members[1].k])
+DistLabels(st) == {<<"dist:start", st.dist[k].members[1].b, k, FirstDec(st, st.dist[k])>> : k \in {j \in DOMAIN st.dist : st.dist[j].pc = "gate"}}
+                 \cup {<<"dist:mid", st.dist[k].members[1].b, k, FirstDec(st, st.dist[k])>> : k \in {j \in DOMAIN st.dist : st.dist[j].pc = "mid_gate"}}
+BarLabels(st) == {<<"rg:start", b, 0, "">> : b \in {x \in Bars : st.bar[x].rg = "gate"}}
+                \cup {<<"fmt:send", b, 0, DecName(st.bar[b].sd[st.bar[b].rdk])>> : b \in {x \in Bars : st.bar[x].rd = "fmt_gate"}}
+                \cup {<<"bar:exit", b, 0, "">> : b \in {x \in Bars : st.bar[x].pc = "exit_gate"}}
+                \cup {<<"bar:cancel", b, 0, "">> : b \in {x \in Bars : st.bar[x].pc = "cancel_gate"}}
 CtLabels(st) ==
-  CASE st.ct.pc = "push_gate"   -> {<<"ct:push", st.ct.b, 0>>}
-    [] st.ct.pc = "hm_gate"     -> {<<"ct:hm:" \o (IF st.ct.cmd = "itertrav" THEN "iter" ELSE st.ct.cmd), 0, 0>>}
-    [] st.ct.pc = "cancel_gate" -> {<<"ct:cancelbar", st.ct.b, 0>>}
-    [] st.ct.pc = "flush_gate"  -> {<<"ct:flush", 0, 0>>}
-    [] st.ct.pc = "io_gate"     -> {<<"ct:io", 0, 0>>}
-    [] st.ct.pc = "drop_gate"   -> {<<"ct:drop", 0, 0>>}
-    [] st.ct.pc = "pcancel_gate" -> {<<"ct:pcancel", 0, 0>>}
+  CASE st.ct.pc = "push_gate"   -> {<<"ct:push", st.ct.b, 0, "">>}
+    [] st.ct.pc = "hm_gate"     -> {<<"ct:hm:" \o (IF st.ct.cmd = "itertrav" THEN "iter" ELSE st.ct.cmd), 0, 0, "">>}
+    [] st.ct.pc = "cancel_gate" -> {<<"ct:cancelbar", st.ct.b, 0, "">>}
+    [] st.ct.pc = "flush_gate"  -> {<<"ct:flush", 0, 0, "">>}
+    [] st.ct.pc = "io_gate"     -> {<<"ct:io", 0, 0, "">>}
+    [] st.ct.pc = "drop_gate"   -> {<<"ct:drop", 0, 0, "">>}
+    [] st.ct.pc = "pcancel_gate" -> {<<"ct:pcancel", 0, 0, "">>}
     [] OTHER -> {}
 HmLabels(st) ==
   CASE st.hm.pc = "req_gate"  -> {<<"hm:req:" \o (IF st.hm.req.cmd = "itertrav" THEN "iter" ELSE st.hm.req.cmd),
-                                    IF st.hm.req.cmd = "push" THEN st.hm.req.b ELSE 0, 0>>}
-    [] st.hm.pc = "iter_gate" -> {<<"hm:iter", st.hm.order[st.hm.i], 0>>}
-    [] st.hm.pc = "pop_gate"  -> {<<"hm:pop", st.hm.req.b, 0>>}
+                                    IF st.hm.req.cmd = "push" THEN st.hm.req.b ELSE 0, 0, "">>}
+    [] st.hm.pc = "iter_gate" -> {<<"hm:iter", st.hm.order[st.hm.i], 0, "">>}
+    [] st.hm.pc = "pop_gate"  -> {<<"hm:pop", st.hm.req.b, 0, "">>}
     [] OTHER -> {}
-LsLabels(st) == CASE st.ls = "tick_gate" -> {<<"ls:tick", 0, 0>>} [] st.ls = "done_gate" -> {<<"ls:done", 0, 0>>} [] OTHER -> {}
-ClLabels(st) == {<<"cl", c, 0>> : c \in {x \in Clients : st.cl[x].st = "gate"}}
-               \cup {<<"pw:cancel", c, 0>> : c \in {x \in Clients : st.cl[x].st = "cancel_gate"}}
+LsLabels(st) == CASE st.ls = "tick_gate" -> {<<"ls:tick", 0, 0, "">>} [] st.ls = "done_gate" -> {<<"ls:done", 0, 0, "">>} [] OTHER -> {}
+ClLabels(st) == {<<"cl", c, 0, "">> : c \in {x \in Clients : st.cl[x].st = "gate"}}
+               \cup {<<"pw:cancel", c, 0, "">> : c \in {x \in Clients : st.cl[x].st = "cancel_gate"}}
 
 Parked(st) == ClLabels(st) \cup CtLabels(st) \cup HmLabels(st) \cup LsLabels(st) \cup BarLabels(st)
               \cup DistLabels(st) \cup ErLabels(st) \cup DpLabels(st)
@@ -220,12 +239,27 @@ ApplyBarOp(st, b, op) ==
     [] op.op = "abort" ->
          IF B.aborted \/ Completed(B) THEN st
          ELSE SpawnEr([st EXCEPT !.bar[b].aborted = TRUE, !.bar[b].rm = op.drop, !.bar[b].trig = TRUE], b)
+    [] op.op = "setcur" ->
+         IF op.n < 0 THEN st
+         ELSE LET fire == B.trig /\ op.n >= B.total
+                  st1 == [st EXCEPT !.bar[b].cur = IF fire THEN B.total ELSE op.n] IN
+              IF fire THEN SpawnEr(st1, b) ELSE st1
+    [] op.op = "settotal" ->
+         IF B.trig THEN st
+         ELSE LET nt == IF op.n < 0 THEN B.cur ELSE op.n
+                  st1 == [st EXCEPT !.bar[b].total = nt] IN
+              IF op.drop THEN SpawnEr([st1 EXCEPT !.bar[b].cur = nt, !.bar[b].trig = TRUE], b) ELSE st1
+    [] op.op = "trigger" ->
+         IF B.trig THEN st
+         ELSE IF B.cur >= B.total THEN SpawnEr([st EXCEPT !.bar[b].cur = B.total, !.bar[b].trig = TRUE], b)
+         ELSE [st EXCEPT !.bar[b].trig = TRUE]
     [] OTHER -> st
 
 (* the client's call returns: next call or done *)
 Return(st, c) ==
-  LET n == st.cl[c].pc + 1 IN
-  [st EXCEPT !.cl[c].pc = n, !.cl[c].st = IF n > Len(Prog[c]) THEN "done" ELSE "gate"]
+  LET n == st.cl[c].pc + 1  op == Prog[c][st.cl[c].pc] IN
+  [st EXCEPT !.cl[c].pc = n, !.cl[c].st = IF n > Len(Prog[c]) THEN "done" ELSE "gate",
+             !.added = IF op.op = "add" THEN @ \cup {op.b} ELSE @]
 
 (* --- clients --- *)
 MicroClient(st, c) ==
@@ -234,8 +268,16 @@ MicroClient(st, c) ==
      LET op == Op(c, st) IN
      CASE op.op \in {"add", "prio"} -> {[st EXCEPT !.cl[c].st = "sendct"]}
        [] op.op = "write" -> {[st EXCEPT !.cl[c].st = "sendio"]}
-       [] op.op \in {"incr", "abort"} ->
+       [] op.op \in {"incr", "abort", "setcur", "settotal", "trigger", "refill"} ->
             IF st.bar[op.b].exists THEN {[st EXCEPT !.cl[c].st = "sendbar"]} ELSE {Return(st, c)}
+       [] op.op = "get" ->       \* ID, Current, Completed, Aborted: four round trips to the bar (or its published state)
+            IF st.bar[op.b].exists THEN {[st EXCEPT !.cl[c].st = "get", !.cl[c].k = 1]} ELSE {Return(st, c)}
+       [] op.op = "get1" ->      \* a single getter
+            IF st.bar[op.b].exists THEN {[st EXCEPT !.cl[c].st = "get", !.cl[c].k = 4]} ELSE {Return(st, c)}
+       [] op.op = "barwait" -> IF st.bar[op.b].exists THEN {[st EXCEPT !.cl[c].st = "barwait"]} ELSE {Return(st, c)}
+       [] op.op = "cancel" ->    \* the context given to NewWithContext is cancelled
+            {Return([st EXCEPT !.pctx = TRUE, !.done = IF Refresh = "none" THEN TRUE ELSE @,
+                               !.bar = [b \in Bars |-> [@[b] EXCEPT !.ctx = TRUE]]], c)}
        [] op.op = "wait"  -> {[st EXCEPT !.cl[c].st = "waitbwg"]}
        [] op.op = "shutdown" -> {[st EXCEPT !.cl[c].st = "cancel_gate"]}
        [] op.op = "refresh" -> {Return([st EXCEPT !.mreq = @ + 1], c)}
@@ -246,6 +288,8 @@ MicroClient(st, c) ==
      {[st EXCEPT !.pctx = TRUE, !.done = IF Refresh = "none" THEN TRUE ELSE @,
                  !.bar = [b \in Bars |-> [@[b] EXCEPT !.ctx = TRUE]], !.cl[c].st = "waitpwg"]}
   ELSE IF C.st = "waitpwg" /\ st.ctgone THEN {Return(st, c)}
+  ELSE IF C.st = "barwait" /\ st.bar[Op(c, st).b].pc = "gone" THEN {Return(st, c)}
+  ELSE IF C.st = "get" /\ st.bar[Op(c, st).b].pc = "gone" THEN {Return(st, c)}
   ELSE {}
 
 (* the escape alternatives of the clients' selects, taken only when the other side cannot receive *)
@@ -278,8 +322,7 @@ MicroHm(st) ==
        [] r.cmd = "sync" ->
             IF st.hsync \/ st.hlen # Len(st.heap)
             THEN {[st EXCEPT !.hm.pc = "sync_table", !.hm.i = 1, !.hm.order = st.heap, !.matrix = <<>>]}
-            ELSE {HmNext(IF st.matrix # <<>>
-                         THEN [st EXCEPT !.dist = AddSlot(@, [members |-> st.matrix, i |-> 1, pc |-> "gate"])] ELSE st)}
+            ELSE {HmNext([st EXCEPT !.dist = SpawnDists(@, st.matrix, 1)])}
        [] r.cmd \in {"iter", "itertrav"} ->
             IF st.heap = <<>> THEN
                IF r.cmd = "iter" THEN {[st EXCEPT !.hm.pc = "pop_loop", !.ct.iterClosed = TRUE, !.ct.exempt = st.lazyDirty, !.lazyDirty = FALSE]}
@@ -301,11 +344,10 @@ MicroHm(st) ==
   ELSE IF H.pc = "sync_table" THEN
      \* b.wSyncTable(): a round trip to the bar's goroutine, or the published state once it has exited
      IF H.i > Len(H.order) THEN
-        {HmNext([st EXCEPT !.hsync = FALSE, !.hlen = Len(st.heap),
-                           !.dist = IF st.matrix # <<>> THEN AddSlot(@, [members |-> st.matrix, i |-> 1, pc |-> "gate"]) ELSE @])}
+        {HmNext([st EXCEPT !.hsync = FALSE, !.hlen = Len(st.heap), !.dist = SpawnDists(@, st.matrix, 1)])}
      ELSE LET b == H.order[H.i] IN
           IF st.bar[b].pc = "gone"
-          THEN {[st EXCEPT !.hm.i = @ + 1, !.matrix = IF st.bar[b].sync THEN Append(@, b) ELSE @]}
+          THEN {[st EXCEPT !.hm.i = @ + 1, !.matrix = AddToMatrix(@, b, st.bar[b].sd, 1)]}
           ELSE {}
   ELSE IF H.pc = "pop_loop" THEN
      IF st.heap = <<>> THEN {HmNext([st EXCEPT !.ct.popClosed = TRUE])}
@@ -403,7 +445,9 @@ FinishRender(st, b) ==
 MicroBar(st, b) ==
   LET B == st.bar[b] IN
   IF B.rd = "start" THEN
-     IF B.sync THEN {[st EXCEPT !.bar[b].rd = "fmt_gate"]} ELSE {FinishRender(st, b)}
+     IF B.sd # <<>> THEN {[st EXCEPT !.bar[b].rd = "fmt_gate", !.bar[b].rdk = 1]} ELSE {FinishRender(st, b)}
+  ELSE IF B.rd = "fmt_next" THEN
+     IF B.rdk < Len(B.sd) THEN {[st EXCEPT !.bar[b].rd = "fmt_gate", !.bar[b].rdk = @ + 1]} ELSE {FinishRender(st, b)}
   ELSE IF B.rd = "fill" THEN {FinishRender(st, b)}
   ELSE IF B.rg = "handoff" /\ B.pc = "gone" THEN
      \* <-b.bsOk: the render goroutine runs the closure itself on the published state
@@ -448,9 +492,10 @@ Deterministic(st) ==
 Rendezvous(st) ==
   \* the container's select: a client closure, a Write, a traversal request, a render request, done
   (IF st.ct.pc = "idle" THEN
-      {LET op == Op(c, st) b == st.nbars + 1
+      {LET op == Op(c, st) b == IF op.op = "add" THEN op.b ELSE st.nbars + 1
            B0 == [BarInit EXCEPT !.exists = TRUE, !.total = op.total, !.trig = (op.total > 0), !.rm = op.rm, !.nopop = op.nopop,
-                                 !.sync = op.sync, !.after = op.after, !.pc = "idle", !.prio = b - 1, !.ctx = st.pctx]
+                                 !.sd = op.sd, !.after = op.after, !.pc = "idle",
+                                 !.prio = IF op.hasprio THEN op.prio ELSE b - 1, !.ctx = st.pctx]
            st1 == [st EXCEPT !.bar[b] = B0, !.nbars = b, !.bwg = @ + 1, !.ct.c = c]
        IN IF op.op = "prio"
           THEN Return([st EXCEPT !.ct.pc = "hm_gate", !.ct.cmd = "fix", !.ct.b = op.b, !.ct.v = op.n, !.ct.lazy = op.drop], c)
@@ -507,21 +552,25 @@ Rendezvous(st) ==
   \cup UNION {
         (IF st.bar[b].pc = "idle" /\ st.bar[b].host = "none" THEN
             {Return(ApplyBarOp(st, b, Op(c, st)), c) : c \in {x \in Clients : st.cl[x].st = "sendbar" /\ Op(x, st).b = b}}
+            \cup {IF st.cl[c].k >= 4 THEN Return(st, c) ELSE [st EXCEPT !.cl[c].k = @ + 1]
+                     : c \in {x \in Clients : st.cl[x].st = "get" /\ Op(x, st).b = b}}
             \cup (IF st.bar[b].rg = "handoff"
                   THEN {[st EXCEPT !.bar[b].rg = "none", !.bar[b].pc = "busy", !.bar[b].host = "bar", !.bar[b].rd = "start"]} ELSE {})
             \cup (IF st.hm.pc = "sync_table" /\ st.hm.i <= Len(st.hm.order) /\ st.hm.order[st.hm.i] = b
-                  THEN {[st EXCEPT !.hm.i = @ + 1, !.matrix = IF st.bar[b].sync THEN Append(@, b) ELSE @]} ELSE {})
+                  THEN {[st EXCEPT !.hm.i = @ + 1, !.matrix = AddToMatrix(@, b, st.bar[b].sd, 1)]} ELSE {})
             \cup (IF st.bar[b].ctx THEN {[st EXCEPT !.bar[b].pc = "exit_gate"]} ELSE {})
          ELSE {}) : b \in Bars}
   \* the width exchange
   \cup UNION {
-        (IF st.dist[k].pc = "collect" /\ st.dist[k].i <= Len(st.dist[k].members)
-            /\ st.bar[st.dist[k].members[st.dist[k].i]].rd = "fmt_send"
-         THEN {[st EXCEPT !.dist[k].i = @ + 1, !.bar[st.dist[k].members[st.dist[k].i]].rd = "fmt_recv"]} ELSE {})
+        (LET D == st.dist[k] IN
+         IF D.pc = "collect" /\ D.i <= Len(D.members)
+            /\ st.bar[D.members[D.i].b].rd = "fmt_send" /\ st.bar[D.members[D.i].b].rdk = D.members[D.i].k
+         THEN {[st EXCEPT !.dist[k].i = @ + 1, !.bar[D.members[D.i].b].rd = "fmt_recv"]} ELSE {})
         \cup
-        (IF st.dist[k].pc = "distribute" /\ st.dist[k].i <= Len(st.dist[k].members)
-            /\ st.bar[st.dist[k].members[st.dist[k].i]].rd = "fmt_recv"
-         THEN {[st EXCEPT !.dist[k].i = @ + 1, !.bar[st.dist[k].members[st.dist[k].i]].rd = "fill"]} ELSE {})
+        (LET D == st.dist[k] IN
+         IF D.pc = "distribute" /\ D.i <= Len(D.members)
+            /\ st.bar[D.members[D.i].b].rd = "fmt_recv" /\ st.bar[D.members[D.i].b].rdk = D.members[D.i].k
+         THEN {[st EXCEPT !.dist[k].i = @ + 1, !.bar[D.members[D.i].b].rd = "fmt_next"]} ELSE {})
         : k \in DOMAIN st.dist}
   \* an early-refresh pump whose bar has been cancelled leaves
   \cup {[st EXCEPT !.er[k].pc = "gone"] : k \in {j \in DOMAIN st.er : st.er[j].pc = "pump_send" /\ st.bar[st.er[j].b].ctx}}
@@ -544,16 +593,19 @@ Quiesce(st) ==
             IF r # {} THEN UNION {Quiesce(t) : t \in r} ELSE {st}
 
 (* ------------------------------------------------------------------ steps *)
-Label(g) == g[1] \o (IF g[2] # 0 THEN ":" \o ToString(g[2]) ELSE "")
+Label(g) == g[1] \o (IF g[2] # 0 THEN ":" \o ToString(g[2]) ELSE "") \o g[4]
 
 AllDone(st) == \A c \in Clients : st.cl[c].st = "done"
 
 (* the harness issues a call only when it makes sense: the bar it names exists, Wait comes after every Add *)
 Eligible(st, c) ==
   LET op == Op(c, st) IN
-  CASE op.op \in {"incr", "abort"} -> st.bar[op.b].exists
-    [] op.op = "add" -> IF op.after = NoBar THEN TRUE ELSE st.bar[op.after].exists
-    [] op.op = "wait" -> \A d \in Clients : \A i \in st.cl[d].pc..Len(Prog[d]) : st.cl[d].st = "done" \/ Prog[d][i].op # "add"
+  CASE op.op \in {"incr", "abort", "setcur", "settotal", "trigger", "refill", "get", "get1", "barwait", "prio"} -> op.b \in st.added
+    [] op.op = "add" -> IF op.after = NoBar THEN TRUE ELSE op.after \in st.added
+    [] op.op = "wait" ->   \* after every Add that precedes a Wait in its own program (later ones are late calls)
+         \A d \in Clients : st.cl[d].st = "done" \/
+            \A i \in st.cl[d].pc..Len(Prog[d]) :
+               (Prog[d][i].op = "add") => \E j \in 1..(i - 1) : Prog[d][j].op = "wait"
     [] OTHER -> TRUE
 
 Step == \E g \in Parked(s) :
@@ -578,7 +630,7 @@ GateNames == {"cl", "pw:cancel", "ct:push", "ct:hm:sync", "ct:hm:iter", "ct:hm:s
               "ct:flush", "ct:io", "ct:drop", "ct:pcancel", "hm:req:push", "hm:req:sync", "hm:req:iter", "hm:req:state", "hm:req:end",
               "hm:req:fix", "hm:iter", "hm:pop", "ls:tick", "ls:done", "rg:start", "fmt:send", "bar:exit", "bar:cancel",
               "dist:start", "dist:mid", "er:start", "er:pump", "dp:send"}
-AllGates == GateNames \X (0..NB) \X (0..4)
+AllGates == GateNames \X (0..NB) \X (0..4) \X {"", "p0", "p1", "a0", "a1"}
 StepG(g) == /\ g \in Parked(s) /\ s.panic = "none" /\ ~AllDone(s)
             /\ (IF g[1] = "cl" THEN Eligible(s, g[2]) ELSE TRUE)
             /\ s' \in Quiesce(Release(s, g))
